@@ -97,9 +97,10 @@ def out_of(res):
 
 
 def shape_ok(frames_json, oneway):
-    """zero or more continues replies then exactly one final reply; nothing for oneway"""
+    """zero or more continues replies then exactly one final reply. C01 states nothing about requests marked oneway
+    (their silence is C04's subject), so they are not constrained here."""
     if oneway:
-        return len(frames_json) == 0
+        return True
     if not frames_json:
         return False
     for f in frames_json[:-1]:
@@ -201,7 +202,7 @@ def c01(ck):
             sf = fields(sres)
             grp = canon_reply_stream(unhx(sf.get("out", "-")))
             if sf.get("closed") != "1" and seq[i][0] not in SHAPELESS and not shape_ok(grp, r.get("oneway") is True):
-                ck.failures.append({"what": "reply group of a request served alone is not continues* final (or is non-empty for oneway)",
+                ck.failures.append({"what": "reply group of a request served alone is not continues* final",
                                     "request": r, "replies": grp})
             expect += grp
             if sf.get("closed") == "1":
